@@ -53,6 +53,7 @@ def run(rep, prog, tier):
     _r6(rep, prog)
     _r7(rep, prog)
     _r8(rep, prog)
+    _r9(rep, prog)
 
 
 def _r6(rep, prog):
@@ -149,6 +150,32 @@ def _r8(rep, prog):
     rep.check(not bad, R, "every return of PagedBitset::insert has set the bit", "must-pass insert_mut",
               "PagedBitset::insert can return without having set the bit (an ordinal whose page is outside the directory is skipped silently): the cardinality of a string column with a `missing` value is one too low "
               "when the sentinel ordinal falls on an unallocated page (a segment with exactly 1024 distinct terms), and right for other partitions of the same documents", site=site(b, bad[0]) if bad else b.span)
+
+
+def _r9(rep, prog):
+    """a request parameter never cuts a result vector past its end"""
+    R = "C14-R9"
+    rep.rule(R, "request-sized cuts are clamped: in src/aggregation every Vec::drain / split_off / split_at whose bound is not a full range and derives from a value that is not the vector's own length (a request parameter such as top_hits' `from`) goes through a min / clamp with the length first — Vec::drain(..n) panics when n exceeds the length, so a `from` larger than the number of hits of a bucket turns the whole search into a panic instead of an empty hit list")
+    CL = re.compile(r"::cmp::(min|Ord::min|Ord::clamp)$|::(min|clamp|saturating_sub)$")
+    n = 0
+    for fid, b in sorted(prog.bodies.items()):
+        if "tantivy::aggregation" not in fid or "::tests::" in fid or b.kind in ("const", "static", "promoted"):
+            continue
+        for bi, t in b.calls():
+            f = t.get("f") or ""
+            if not re.search(r"Vec::<.*>::(drain|split_off)$|slice::<impl \[T\]>::(split_at|split_at_mut)$", f) or len(t["args"]) < 2:
+                continue
+            l = op_local(t["args"][1])
+            lv = provenance(b, l) if l is not None else set()
+            if any(x[0] == "agg" and str(x[1]).endswith("RangeFull::RangeFull") for x in lv) and not any(x[0] == "call" for x in lv):
+                continue
+            n += 1
+            clamped = any(x[0] == "call" and CL.search(x[1]) for x in lv)
+            own_len = all(x[0] != "call" or x[1].endswith("::len") or str(x[1]).endswith("RangeTo::RangeTo") for x in lv) and any(x[0] == "call" and x[1].endswith("::len") for x in lv)
+            rep.check(clamped or own_len, R, "%s: the bound of %s is clamped to the length" % (short(fid), f.split("::")[-1]), "min(.., len)",
+                      "`%s` cuts a vector with `%s` at a bound that comes from %s without a min / clamp against the vector's length: a request value larger than the number of elements panics "
+                      "(top_hits with `from` beyond the hits of a bucket)" % (fid, f.split("::")[-1], sorted(short(x[1]) for x in lv if x[0] == "call")), site=site(b, bi))
+    rep.floor(R, "request-sized cuts in the aggregation code", n, 1)
 
 
 def _merge_functions(prog):
